@@ -460,7 +460,7 @@ class DecodeS6F15Abs:
 @contract("secsgem.gem.collection_event_capability:CollectionEventCapability._on_s06f15", "C12")
 class OnS6F15:
     """S6F15 is always answered by S6F16 (never an abort) naming the requested event: with the event's report list exactly
-    when the event is linked and enabled, with an empty list otherwise."""
+    when the event is linked - enabled or not: CEED governs the unsolicited S6F11 only (D48) -, with an empty list otherwise."""
 
     cases = [(f"links{a}", {"nlinks": a}) for a in (0, 1, 2)]
     uses = [DecodeS6F15Abs, ItemGetAbs13, BuildAbs, StreamFunctionAbs13, NewFunctionAbs13]
@@ -486,7 +486,7 @@ class OnS6F15:
         lk = find(list(self._registered_collection_events.items()), c)
         v = result.g_value
         out = {"s6f16-for-the-requested-event": result.g_stream == 6 and result.g_function == 16 and v["CEID"] == c and v["DATAID"] == 1}
-        if lk is not None and lk.enabled:
+        if lk is not None:
             out["reports-of-the-event"] = type(v["RPT"]) is AbsReportList and v["RPT"].g_ceid == c
         else:
             out["empty-report-list"] = len(v["RPT"]) == 0
